@@ -9,18 +9,28 @@ TLC:       CopyrightDoc_codec*.cfg  closed: every list of <= 4 / 5 lines over 8 
            FilesFirst, RoundTrip, Stable, HistoryKept)
            CopyrightDoc_neg.cfg     spec-level negative controls, re-run in every check:
            NoDotEscape -> EncodedSafe / RoundTrip, DecoderStrips -> CodecLaw / RoundTrip,
-           DotAnyIndent -> CodecLaw
+           DotAnyIndent -> CodecLaw; state kept between calls (memo history variable): StaleDump ->
+           RoundTrip, LicMemoBySynopsis -> RoundTrip, ParseMemoAliased -> CodecRepeat
 binding:   (a) every CASE line of both closed configurations (input AND expected result computed by
                TLC) is concretized (seeded) and replayed into debian.copyright
            (b) random documents (0..6 paragraphs, texts up to 8 lines, built through the API or parsed
                from a text with any paragraph order) and random line lists are executed by the real
                code, abstracted by an independent line classifier and validated by TLC
                (TraceCopyrightDoc); corrupted control traces must be rejected
+           (c) no state between calls or objects: in (a) and (b) License objects and pattern lists are
+               shared between paragraphs and between documents; the re-parsed document is then CHANGED
+               (TLC's Edits in (a): files / copyright / license with the same synopsis / one more add_*;
+               random edit sequences in (b)), dumped and strictly re-parsed again -- the second round
+               trip must give the edited document (TLC: ApplyEdits); the first dump is parsed once more
+               after its first parse result was changed; the parsed document of the previous case is
+               kept alive and looked at again after the current case; the codec is called twice on the
+               same list with the returned list changed by the caller in between
 verdict observables (DESIGN 5, C17): the strict re-parse of dump() raises nothing and logs no warning;
            paragraph kinds and order, files, copyright, license synopsis and text, header fields
            equal to what the document was built from; the second dump() equals the first;
            parse_multiline_as_lines(format_multiline_lines(ls)) == ls when no line is white-space-only
-           or a lone '.' (and ls != ['']).  Everything else (encoded form, normal form outside the
+           or a lone '.' (and ls != ['']) -- each of these also the second time, whatever was built,
+           parsed, dumped or changed before.  Everything else (encoded form, normal form outside the
            condition, layout of dump(), insertion position of add_files_paragraph, what the reader of
            the specification predicts for the dumped lines) is diagnostic: spec drift, never an alarm.
 """
@@ -37,14 +47,17 @@ import core
 
 MANIFEST = dict(
     technique="TLA+ spec (CopyrightDoc: multiline codec over line classes, restricted-field converters, Deb822 dump/reader, document layer) model-checked by TLC in two closed configurations; every CASE (input + expected result) replayed into debian.copyright; recorded executions on random documents and line lists validated by TLC (TraceCopyrightDoc)",
-    text="TLC checks, for every list of up to 5 lines over 8 line-class symbols, that decoding the ' .' encoding returns the stated normal form, the original list under the statement's condition, a stable re-encoding and a value that Deb822 accepts and cannot split; and, for every header kind and every history of up to 3 add_*_paragraph calls over context paragraphs and one focus paragraph of every shape, that Load(Dump(D)) = D in strict mode and Dump(Load(Dump(D))) = Dump(D). Each of those cases is concretized (indentation with blanks and tabs, non-ASCII, '.'-prefixed words, ' .' lines, PGP-looking and field-looking lines, long lines, globs with escapes) and executed by the real Copyright / FilesParagraph / LicenseParagraph / License code with every verdict observable compared with TLC's expected result; random documents of 0..6 paragraphs with texts of up to 8 lines (built through the API or parsed in any paragraph order) and random line lists are recorded from the real code and validated by TLC.",
+    text="TLC checks, for every list of up to 5 lines over 8 line-class symbols, that decoding the ' .' encoding returns the stated normal form, the original list under the statement's condition, a stable re-encoding and a value that Deb822 accepts and cannot split; and, for every header kind and every history of up to 3 add_*_paragraph calls over context paragraphs and one focus paragraph of every shape, that Load(Dump(D)) = D in strict mode and Dump(Load(Dump(D))) = Dump(D). Each of those cases is concretized (indentation with blanks and tabs, non-ASCII, '.'-prefixed words, ' .' lines, PGP-looking and field-looking lines, long lines, globs with escapes) and executed by the real Copyright / FilesParagraph / LicenseParagraph / License code with every verdict observable compared with TLC's expected result; random documents of 0..6 paragraphs with texts of up to 8 lines (built through the API or parsed in any paragraph order) and random line lists are recorded from the real code and validated by TLC. State leaking between calls or objects is covered in both directions: the specification carries what the first round trip produced as a history variable (memo) that the design must never read; every execution shares License objects and pattern lists between paragraphs and documents, edits the re-parsed document (TLC's edits / random edit sequences explained by ApplyEdits) and makes a second round trip, parses the first dump again after its first parse result was changed, re-examines the live objects of the previous case, and calls the codec twice with the returned list changed in between.",
     note="Small-scope: closed over the stated bounds; characters inside a line are sampled (seeded), not enumerated. Domain (DESIGN D1, D3): no str.splitlines boundary inside a line, license texts do not end in an empty line, the codec is not given [''], no trailing white space, copyright continuation lines are indented and non-blank; empty synopsis, white-space-only / lone-dot lines in documents are executed as unspecified. Trusted: TLC, the concretizer, the independent line classifier, the projections. Corrupted control traces and three spec-level negative controls are required to fail in every run.",
     design="5 (C17)")
 
 D1_CHARS = "\n\r\v\f\x1c\x1d\x1e\x85\u2028\u2029"
 NEG_CONTROLS = [("codec", "NoDotEscape", "EncodedSafe"), ("doc", "NoDotEscape", "RoundTrip"),
                 ("codec", "DecoderStrips", "CodecLaw"), ("doc", "DecoderStrips", "RoundTrip"),
-                ("codec", "DotAnyIndent", "CodecLaw")]
+                ("codec", "DotAnyIndent", "CodecLaw"),
+                # state kept between calls (memo history variable of the specification)
+                ("doc", "StaleDump", "RoundTrip"), ("doc", "LicMemoBySynopsis", "RoundTrip"),
+                ("codec", "ParseMemoAliased", "CodecRepeat")]
 
 # ------------------------------------------------------------------ concretization pools
 # bodies of Plain / Indented text lines: start with a non-blank, are not a lone '.', no trailing blank
@@ -484,9 +497,8 @@ def judge_doc(o, hdr, expected, expected2=None):
 class Live:
     """the objects of an earlier case, kept alive and looked at again after an unrelated case"""
 
-    def __init__(self, o, hdr, label):
+    def __init__(self, o):
         self.C, self.c = o["_live"]
-        self.hdr, self.fmt, self.label = hdr, o["format0"], label
         self.obs = (o["hdr3"], o["paras3"], o["dump"])
 
     def recheck(self):
@@ -616,13 +628,16 @@ def doc_concretize(case, conc):
         return hdr, ops, doc, None, None
     pre = [para(p, kof(p)) for p in case["pre"]]
     e = case["edit"][0]
+    # (the keys of the concretization are those of the edited paragraph: the expected document `doc`
+    # printed by TLC is concretized to exactly the values the edit sets)
+    ek = kof(case["pre"][e["i"] - 1]) if e["kind"] != "add" else 9
     if e["kind"] == "files":
         ce = {"kind": "files", "i": e["i"] - 1, "pats": [conc.body(c) for c in e["p"]]}
     elif e["kind"] == "copy":
-        ce = {"kind": "copy", "i": e["i"] - 1, "copy": conc.text(e["c"], "ec")}
+        ce = {"kind": "copy", "i": e["i"] - 1, "copy": conc.text(e["c"], "c%d" % ek)}
     elif e["kind"] == "lic":
         # same synopsis (same payload id as the paragraph's), new text
-        ce = {"kind": "lic", "i": e["i"] - 1, "syn": conc.line(e["l"]["s"], "es"), "text": conc.text(e["l"]["t"], "et")}
+        ce = {"kind": "lic", "i": e["i"] - 1, "syn": conc.line(e["l"]["s"], "s%d" % ek), "text": conc.text(e["l"]["t"], "t%d" % ek)}
     else:
         ce = {"kind": "add", "para": para(e["a"], 9), "at": e["at"]}
     return hdr, ops, doc, pre, [ce]
@@ -659,8 +674,42 @@ def check_doc_case(case, conc, form="lines", dumpform="str", diag=None):
     return msg, o
 
 
+def pack(obj):
+    import base64
+    return base64.b64encode(zlib.compress(json.dumps(obj).encode(), 9)).decode()
+
+
+def unpack(s):
+    import base64
+    return json.loads(zlib.decompress(base64.b64decode(s)).decode()) if s else []
+
+
+def _doc_run(case, crc, seed, k, diag=None):
+    """one execution of a document CASE: concretization k of the run's seed"""
+    rng = random.Random("%s-%d-%d" % (seed, crc, k))
+    conc = Conc(rng, canonical=(k == 0))
+    form = "lines" if k == 0 else rng.choice(["lines", "lines", "file"])
+    dumpform = "str" if k == 0 else rng.choice(["str", "str", "file"])
+    msg, o = check_doc_case(case, conc, form, dumpform, diag)
+    return msg, o, {"kind": "doc", "case": case, "conc": conc.c, "form": form, "dumpform": dumpform, "crc": crc, "k": k}
+
+
+_PROC_HIST = []       # [kind, nconc, CASE line] of everything this (pool) process has executed, in order
+HIST_MAX = 3000
+
+
+def _codec_run(case, crc, seed, k, diag=None):
+    rng = random.Random("%s-%d-%d" % (seed, crc, k))
+    conc = Conc(rng, canonical=(k == 0))
+    msg, lines = check_codec_case(case, conc, diag)
+    return msg, conc
+
+
 def _worker(args):
-    """replay a chunk of CASE lines (runs in a pool process); returns (n, violations, drift, stats)"""
+    """replay a chunk of CASE lines (runs in a pool process forked before anything of the code under
+    test was imported); returns (n, violations, drift, stats).  A filed document violation carries the
+    CASE lines this process executed before it (`history`): state that leaks between calls or
+    documents needs them to be reproduced"""
     kind, bodies, seed, nconc, repo = args
     if repo:
         core_lib = os.path.join(repo, "lib")
@@ -670,34 +719,31 @@ def _worker(args):
     viol, drift = [], []
     stats = {}
     n = 0
-    prev = None          # (Live objects, replayable description) of the previous document case
-    for body in bodies:
+    prev = None          # Live objects of the previous document execution
+    for bi, body in enumerate(bodies):
         case = json.loads(body)
         crc = zlib.crc32(body.encode())
         for k in range(nconc):
-            rng = random.Random("%s-%d-%d" % (seed, crc, k))
-            conc = Conc(rng, canonical=(k == 0))
             diag = [] if len(drift) < 5 else None
             n += 1
             if kind == "codec":
-                msg, lines = check_codec_case(case, conc, diag)
+                msg, conc = _codec_run(case, crc, seed, k, diag)
                 if msg:
                     viol.append(({"kind": "codec", "case": case, "conc": conc.c}, msg))
                 for s in case["l"]:
                     stats[s] = stats.get(s, 0) + 1
             else:
-                form = "lines" if k == 0 else rng.choice(["lines", "lines", "file"])
-                dumpform = "str" if k == 0 else rng.choice(["str", "str", "file"])
-                msg, o = check_doc_case(case, conc, form, dumpform, diag)
-                me = {"kind": "doc", "case": case, "conc": conc.c, "form": form, "dumpform": dumpform}
-                if msg:
-                    viol.append((dict(me, before=prev[1] if prev else None), msg))
-                if prev is not None:
-                    # the objects of the previous case must not have changed
-                    msg2 = prev[0].recheck()
-                    if msg2:
-                        viol.append(({"kind": "doc-pair", "case": case, "first": prev[1], "second": me}, msg2))
-                prev = (Live(o, None, ""), me) if o["_live"] is not None else None
+                msg, o, me = _doc_run(case, crc, seed, k, diag)
+                if msg or prev is not None:
+                    msg2 = prev.recheck() if prev is not None else None    # the previous objects must not have changed
+                    if msg or msg2:
+                        me.update(seed=seed, nconc=nconc, history=pack(_PROC_HIST[-HIST_MAX:]),
+                                  history_truncated=len(_PROC_HIST) > HIST_MAX)
+                        if msg:
+                            viol.append((me, msg))
+                        else:
+                            viol.append((dict(me, kind="doc-pair"), msg2))
+                prev = Live(o) if o["_live"] is not None else None
                 for p in case["ops"]:
                     stats["add_" + p["k"]] = stats.get("add_" + p["k"], 0) + 1
                 if case.get("edit"):
@@ -707,6 +753,7 @@ def _worker(args):
                 drift += diag
             if len(viol) >= 5:
                 return n, viol, drift[:5], stats
+        _PROC_HIST.append([kind, nconc, body])
     return n, viol, drift[:5], stats
 
 
@@ -1095,6 +1142,9 @@ def validate(ctx, traces, with_controls=True):
     return rejected, info, notes, (len(controls), missing)
 
 
+HISTORY = 300      # documents executed before a failing one that are kept in its replay file
+
+
 DOC_STEP = {0: "order after the add_* calls (diagnostic)", 1: "layout of dump() (diagnostic)", 2: "reader (diagnostic)",
             3: "RoundTrip: the strict re-parse does not give back the document that was built",
             4: "Stable: the second dump() differs from the first",
@@ -1125,12 +1175,12 @@ def run_traces(ctx, quick):
         tr, o = record_doc(hdr, ops, start, form, dumpform, reqs)
         traces.append(tr)
         me = {"kind": "trace-doc", "hdr": hdr, "ops": ops, "start": start, "form": form, "dumpform": dumpform, "reqs": reqs}
-        metas.append(("doc", hdr, ops, start, form, dumpform, o, dict(me, before=prev[1] if prev else None)))
+        metas.append(("doc", hdr, ops, start, form, dumpform, o, me))
         if prev is not None:
-            msg = prev[0].recheck()         # the objects of the previous document must not have changed
+            msg = prev.recheck()            # the objects of the previous document must not have changed
             if msg and len(leaks) < 2:
-                leaks.append(({"kind": "trace-pair", "first": prev[1], "second": me}, msg))
-        prev = (Live(o, hdr, ""), me) if o["_live"] is not None else None
+                leaks.append((n, msg))
+        prev = Live(o) if o["_live"] is not None else None
         o["_live"] = None
         kinds[start] += 1
         for p in ops:
@@ -1185,10 +1235,11 @@ def run_traces(ctx, quick):
                           "parse_multiline_as_lines(format_multiline_lines(%r)) = %r, second call %r / %r%s, not explained by the specification (CodecLaw: the original lines, every time)"
                           % (m[1], m[2]["out"], m[2]["out2"], m[2]["out3"], (" raised " + m[2]["exc"]) if m[2]["exc"] else ""))
         else:
-            ctx.violation(m[7], "recorded execution not explained by the specification at step %d: %s" % (at + 1, explain_doc(m[1], m[2], m[6], at)))
+            ctx.violation(dict(m[7], history=pack([x[7] for x in metas[max(0, i - 1 - HISTORY):i - 1]])),
+                          "recorded execution not explained by the specification at step %d: %s" % (at + 1, explain_doc(m[1], m[2], m[6], at)))
     if not [i for i in filed if metas[i - 1][0] == "doc"]:
-        for case, msg in leaks[:1]:
-            ctx.violation(case, msg)
+        for n, msg in leaks[:1]:
+            ctx.violation(dict(metas[n][7], kind="trace-pair", history=pack([x[7] for x in metas[max(0, n - HISTORY):n]])), msg)
     ctx.extra["earlier_documents_rechecked"] = ndoc - 1
 
 
@@ -1251,7 +1302,7 @@ def run(ctx):
     ]
     procs = 4 if quick else 8
     # quick: one control per switch; thorough: all five and the all-off runs
-    negs = [NEG_CONTROLS[1], NEG_CONTROLS[2], NEG_CONTROLS[4]] if quick else NEG_CONTROLS
+    negs = [NEG_CONTROLS[1], NEG_CONTROLS[2], NEG_CONTROLS[5], NEG_CONTROLS[6], NEG_CONTROLS[7]] if quick else NEG_CONTROLS
     import multiprocessing
     # the replay processes are forked before any thread exists
     mp_pool = multiprocessing.get_context("fork").Pool(procs)
@@ -1263,7 +1314,7 @@ def run(ctx):
 
 
 def _run(ctx, quick, cfg_codec, cfg_doc, negs, mp_pool, procs):
-    with ThreadPoolExecutor(max_workers=5) as pool:
+    with ThreadPoolExecutor(max_workers=7) as pool:
         f_doc = pool.submit(core.run_tlc, "CopyrightDoc", cfg_doc, ctx.work, workers=6 if quick else 8, keep_raw=True,
                             want_tags=set(), timeout=900 if quick else 7200)
         f_codec = pool.submit(core.run_tlc, "CopyrightDoc", cfg_codec, ctx.work, workers=2, keep_raw=True,
@@ -1275,7 +1326,7 @@ def _run(ctx, quick, cfg_codec, cfg_doc, negs, mp_pool, procs):
         unspecified_zone(ctx)
         run_traces(ctx, quick)
         # spec -> code
-        for name, fut, kind, nconc in (("codec", f_codec, "codec", 3 if quick else 6), ("doc", f_doc, "doc", 2)):
+        for name, fut, kind, nconc in (("codec", f_codec, "codec", 2 if quick else 6), ("doc", f_doc, "doc", 2)):
             r = fut.result()
             if r.violated:
                 raise core.MachineryError("specification CopyrightDoc (%s) violates %s\n%s" % (name, r.violated, r.tail))
@@ -1296,9 +1347,23 @@ def _rerun_trace_doc(case):
                       case.get("reqs", ()))
 
 
-def _rerun_doc_case(case):
-    return check_doc_case(case["case"], Conc(random.Random(0), choices=case["conc"]),
-                          case.get("form", "lines"), case.get("dumpform", "str"))
+def _replay_doc_sequence(case):
+    """re-execute, in a fresh process, the CASE lines that preceded the failing execution in its pool
+    process and then the failing one (state leaking between documents is only visible that way)"""
+    seed, nconc = case.get("seed", 0), case.get("nconc", 1)
+    seq = []
+    for kind, nc, body in unpack(case.get("history", "")):
+        seq += [(kind, json.loads(body), zlib.crc32(body.encode()), k) for k in range(nc)]
+    seq += [("doc", case["case"], case["crc"], k) for k in range(case["k"] + 1)]
+    prev = None
+    for j, (kind, c, crc, k) in enumerate(seq):
+        if kind == "codec":
+            _codec_run(c, crc, seed, k)
+            continue
+        msg, o, _ = _doc_run(c, crc, seed, k)
+        if j == len(seq) - 1:
+            return msg, (prev.recheck() if prev is not None else None)
+        prev = Live(o) if o["_live"] is not None else None
 
 
 def replay(ctx, case):
@@ -1307,23 +1372,9 @@ def replay(ctx, case):
         msg, _ = check_codec_case(case["case"], Conc(random.Random(0), choices=case["conc"]))
         return msg
     if k == "doc":
-        if case.get("before"):
-            _rerun_doc_case(case["before"])       # the case that was executed just before, in the same process
-        return _rerun_doc_case(case)[0]
+        return _replay_doc_sequence(case)[0]
     if k == "doc-pair":
-        msg, o = _rerun_doc_case(case["first"])
-        if msg or o["_live"] is None:
-            return msg or "the first case of the pair no longer runs to its end"
-        live = Live(o, None, "")
-        _rerun_doc_case(case["second"])
-        return live.recheck()
-    if k == "trace-pair":
-        tr, o = _rerun_trace_doc(case["first"])
-        if o["_live"] is None:
-            return "the first document of the pair no longer runs to its end (%s %s)" % (o["stage"], o["exc"])
-        live = Live(o, None, "")
-        _rerun_trace_doc(case["second"])
-        return live.recheck()
+        return _replay_doc_sequence(case)[1]
     if k == "trace-codec":
         tr, o = record_codec(case["lines"])
         rejected, _, _, _ = validate(ctx, [tr], with_controls=False)
@@ -1331,10 +1382,14 @@ def replay(ctx, case):
             return "parse_multiline_as_lines(format_multiline_lines(%r)) = %r, second call %r / %r%s: still not explained by the specification" % (
                 case["lines"], o["out"], o["out2"], o["out3"], (" raised " + o["exc"]) if o["exc"] else "")
         return None
-    if k == "trace-doc":
-        if case.get("before"):
-            _rerun_trace_doc(case["before"])
+    if k in ("trace-doc", "trace-pair"):
+        prev = None
+        for h in unpack(case.get("history", "")):
+            _, o = _rerun_trace_doc(h)
+            prev = Live(o) if o["_live"] is not None else None
         tr, o = _rerun_trace_doc(case)
+        if k == "trace-pair":
+            return prev.recheck() if prev is not None else None
         rejected, info, _, _ = validate(ctx, [tr], with_controls=False)
         if rejected:
             return "execution still not explained by the specification: " + explain_doc(case["hdr"], case["ops"], o, info.get(1, 0))
